@@ -27,10 +27,10 @@ Record env := {
   e_cosign_held : bool
 }.
 
-(* THE switch between the code as it is and the code with pending_fixes/C19-1 applied
-   (32-byte proof nodes enforced): flip to [true] when the fix is committed. *)
+(* THE switch between the code before and after fix commit 920ddd1 (32-byte proof nodes
+   enforced): [true] since the fix is committed in /repo. *)
 Definition code_is_strict : bool := true.
-(* ... and for pending_fixes/C19-2 (refusals and no-ops answered with the held STH cosigned). *)
+(* ... and for fix commit 89a3685 (refusals and no-ops answered with the held STH cosigned). *)
 Definition code_cosigns_held : bool := true.
 
 Definition env_idhash (e : env) (id : logid) : option (option bytes) :=
